@@ -99,6 +99,7 @@ def canon_lin(body, ch, e, self_is_block=False):
 def run(prog, tier, extra=None):
     res = Result("C07", "other")
     R1 = res.rule("C07.same-source", "producer and validator call the same functions for consensus values and required work, with matching argument provenance", floor=3)
+    R3 = res.rule("C07.scan-covers-block", "the producer's double-spend scan runs after the last transaction is added to the block", floor=1)
     R2 = res.rule("C07.field-correspondence", "every header field the validator compares with a consensus value is produced from the same consensus value", floor=22)
     bv = BlockValidate(prog)
     vb, vch = bv.body, bv.ch
@@ -222,6 +223,32 @@ def run(prog, tier, extra=None):
                 res.sample({"field": g, "formula": lin, "verdict": "producer and validator compute the same linear form"})
         else:
             res.not_decided.append("Block.%s: validator formula %s, producer expression does not normalise" % (g, lin))
+    # R3: the producer's own double-spend scan covers the block it hands out: after the scan that fills
+    # slips_spent_this_block nothing is added to block.transactions any more (the validator scans every transaction,
+    # including the rebroadcast and fee transactions the producer appends)
+    from ..fields import FieldAnalysis
+    fa = FieldAnalysis(prog)
+    scan_blocks = {s_[1] for s_ in fa.sites(cr, "block::Block", "slips_spent_this_block") if s_[3] in ("insert", "elem", "replace", "unknown")}
+    tx_adds = {s_[1] for s_ in fa.sites(cr, "block::Block", "transactions") if s_[3] in ("insert", "replace", "unknown")}
+    res.instance(R3)
+    if not scan_blocks:
+        res.add(Finding(R3, "C07.scan-covers-block|no-scan", "Block::create no longer scans the transactions it bundles for inputs spent twice (the validator rejects such a block)", cr.loc(0)))
+    else:
+        late = None
+        for sb in sorted(scan_blocks):
+            reach = cr.reachable(sb)
+            hit = sorted(x for x in tx_adds if x in reach and x != sb and not cr.dominates(x, sb))
+            if hit:
+                late = (sb, hit[0])
+                break
+        if late:
+            res.add(Finding(R3, "C07.scan-covers-block|transactions-added-after-scan",
+                            "Block::create adds transactions to the block after its double-spend scan: the rebroadcast / fee transactions appended later are "
+                            "not covered, so the producer can emit a block that Block::validate rejects", cr.loc(late[1]), {"scan": cr.loc(late[0])}))
+        else:
+            res.sample({"rule": R3, "scan": sorted(set(cr.loc(x) for x in scan_blocks))[:3], "additions": sorted(set(cr.loc(x) for x in tx_adds))[:6],
+                        "verdict": "nothing is added to block.transactions after the scan"})
+
     res.explanation = (
         "Decides that producer and validator are siblings of one computation: same callee for consensus values and for the required work (with matching argument "
         "provenance), and for every header field the validator compares with a consensus value the producer fills that field from the same consensus value (directly, or by "
